@@ -234,7 +234,9 @@ class ResourceMap:
         # Last key is queried at last, as the value has to be
         # discriminated between handles and maps.
         for subkey in keys[:-1]:
-            target_map.handles.pop(subkey, None)    # Overwrite duplicates
+            # Overwrite duplicates (handles may be layered, see ChainMap)
+            for handles_layer in target_map.handles.maps:
+                handles_layer.pop(subkey, None)
             if subkey not in target_map.maps:
                 # Missing intermediate map, keep track of its container
                 new_map = ResourceMap()
@@ -249,13 +251,14 @@ class ResourceMap:
         # Handle.
         # More extensive checks are done through assertions in debug
         # mode.
-        dest_map = target_map.handles
-        other_map = target_map.maps
         if isinstance(value, ResourceMap):
-            dest_map, other_map = other_map, dest_map
-
-        other_map.pop(last_key, None)         # Delete duplicates
-        dest_map[last_key] = value
+            # Delete duplicates (handles may be layered, see ChainMap)
+            for handles_layer in target_map.handles.maps:
+                handles_layer.pop(last_key, None)
+            target_map.maps[last_key] = value
+        else:
+            target_map.maps.pop(last_key, None)     # Delete duplicates
+            target_map.handles[last_key] = value
 
         # Set added value's key in its immediate parent (last_key)
         # and the parent itself
